@@ -16,6 +16,14 @@ Chars(n) == CASE n = "A" -> <<"A">>
               [] n = "URL" -> <<"U","R","L">>
               [] n = "HTTP2" -> <<"H","T","T","P","2">>
               [] n = "UserId" -> <<"U","s","e","r","I","d">>
+              \* identifiers whose case-converted form is a reserved or special word of a target language (Swift init / self /
+              \* default / none, Python None / class / in, Kotlin in / class): escaping the DECLARED name must not change the wire string
+              [] n = "Init" -> <<"I","n","i","t">>
+              [] n = "Default" -> <<"D","e","f","a","u","l","t">>
+              [] n = "None" -> <<"N","o","n","e">>
+              [] n = "Class" -> <<"C","l","a","s","s">>
+              [] n = "In" -> <<"I","n">>
+              [] n = "Self_" -> <<"S","e","l","f","_">>
               [] n = "Other" -> <<"O","t","h","e","r">>
               [] n = "Last" -> <<"L","a","s","t">>
               [] n = "Rec" -> <<"R","e","c">>
@@ -25,6 +33,8 @@ RenameOf(n) == CASE n = "none" -> None
                  [] n = "foo-bar" -> <<"f","o","o","-","b","a","r">>
                  [] n = "Other_Name" -> <<"O","t","h","e","r","_","N","a","m","e">>
                  [] n = "9lives" -> <<"9","l","i","v","e","s">>
+                 [] n = "init" -> <<"i","n","i","t">>
+                 [] n = "default" -> <<"d","e","f","a","u","l","t">>
 
 PairOf(n) == CASE n = "type_content" -> <<"type", "content">>
                [] n = "t_c" -> <<"t", "c">>
